@@ -12,6 +12,11 @@ THEOREMS = [
     'Ndn.C10.parseLp_wrapped', 'Ndn.C10.lp_transparent', 'Ndn.C10.parseLp_nack', 'Ndn.C10.lp_nack', 'Ndn.C10.parseLp_nack_bare', 'Ndn.C10.lp_nack_bare',
     'Ndn.C10.parseLp_fragmented', 'Ndn.C10.lp_fragment_rejected', 'Ndn.C10.token_roundtrip',
     'Ndn.C10.reply_uses_own_token', 'Ndn.C10.no_token_bare', 'Ndn.C10.frontends',
+    # every layout the decoder's in-order scan recognises / every envelope in increasing type-number order
+    'Ndn.C10.nack_recognised_iff', 'Ndn.C10.parseLp_nack_general', 'Ndn.C10.lp_nack_general', 'Ndn.C10.lp_nack_ascending',
+    'Ndn.C10.parseLp_nack_out_of_order', 'Ndn.C10.lp_nack_out_of_order',
+    'Ndn.C10.parseLp_fragmented_general', 'Ndn.C10.lp_fragment_rejected_general',
+    'Ndn.C10.parseLp_token_general', 'Ndn.C10.token_general', 'Ndn.C10.token_ascending',
 ]
 PARTIAL = {}
 TRUSTED = [
@@ -20,28 +25,48 @@ TRUSTED = [
     'UintField/BytesField/BoolField parsing and encoding) is modelled at byte level over the field table generated from '
     'the live LpPacketValue class',
     'C10: the reply closure is modelled before its deadline and with the face up (deadline/return value are property C04)',
-    'C10: lp_transparent covers every list of optional headers with a legal value (known or unknown type, any order, any '
-    'number); the PIT token is proved to be the PitToken header value when that header comes first, which is where '
-    'forwarders put it (lowest header type number). A PitToken header placed after a header of a later field of the '
-    'format is ignored by the library (out-of-order = unrecognised) - such envelopes are not generated by the oracle',
-    'C10: lp_nack is proved for the envelope layout produced by make_network_nack (Nack header, then Fragment), which is '
-    'the layout NFD sends; Nack headers surrounded by other headers are exercised by the harness only',
-    'C10: lp_fragment_rejected covers FragIndex/FragCount as the first recognised header (preceded only by headers unknown '
-    'to the format such as Sequence - the layout forwarders send); a FragIndex/FragCount placed after a later-field '
-    'header is treated as unknown and ignored by the library (observation, see candidate_fixes/C10-observations.md)',
+    'C10: optional headers are assumed to carry a legal value when their type is one the format knows (a NonNegativeInteger '
+    'of 1/2/4/8 bytes, a decodable CachePolicy); an illegal one makes the library drop the whole envelope (exercised by the '
+    'mutated decoder stream only). Unknown headers are unrestricted (any type, value, number, position)',
+    'C10: lp_transparent covers every list of optional headers (any order, any number). The PIT token is proved to be the '
+    'value of the first PitToken header for every envelope whose headers are in increasing type-number order (the NDNLPv2 '
+    'order; token_ascending), and more generally whenever only headers unknown to the format precede it (token_general). '
+    'A PitToken header placed after a header of a later field of the format is ignored by the library (out-of-order = '
+    'unrecognised) - such envelopes violate the NDNLPv2 order and are not judged by the oracle',
+    'C10: lp_nack_general covers a Nack header anywhere among optional headers (a PitToken included) provided no header of '
+    'a field the format declares after Nack precedes it - exactly the envelopes in which the in-order scan recognises it '
+    '(nack_recognised_iff), among them every envelope in increasing type-number order (lp_nack_ascending) - and every Nack '
+    'value made of an optional NackReason of 1/2/4/8 bytes among unknown non-critical sub-elements (no NackReason = reason 0). '
+    'The other side is proved as the code behaves (lp_nack_out_of_order: processed as a plain envelope; an NDNLPv2 order '
+    'violation, compared with the model, not judged by the oracle). Remaining assumptions: one Nack header per envelope; a '
+    'critical unknown or repeated sub-element inside the Nack header makes the library drop the envelope (decoder stream only)',
+    'C10: lp_fragment_rejected_general covers every envelope whose headers are in increasing type-number order and include '
+    'FragIndex or FragCount (any other headers and values, with or without Fragment); a FragIndex/FragCount placed after a '
+    'later-field header (order violation) is treated as unknown and ignored by the library (observation, see '
+    'candidate_fixes/C10-observations.md)',
+    'C10: LpPacketValue declares tx_sequence (0x348) before ack (0x344): in an increasing-order envelope `Ack, TxSequence` the '
+    'library does not recognise the TxSequence header (observation; the receive pipeline reads neither). The general theorems '
+    'hold over the generated table as declared, so Nack, PitToken and Fragment are proved unaffected by it',
 ]
 RULE = ('(1) envelopes: every subset/order of the optional headers (PitToken of length 0..40, preceded at most by unknown '
         'lower-type headers such as Sequence/HopCount, '
         'IncomingFaceId/NextHopFaceId/CongestionMark with 1/2/4/8-byte values, CachePolicy, TxSequence, Ack, NonDiscovery, '
         'PrefixAnnouncement, Sequence and unknown critical/non-critical types) around Interests, signed Interests, Data and '
         'malformed packets; Nack headers with reasons at the 1/2/4/8-byte boundaries (0, 255, 256, 65535, 65536, 2^32-1, '
-        '2^32, 2^64-1) and without reason; fragmentation headers; all of them also mutated (truncation, substitution, '
-        'length edits, element drop/dup/swap) for the decoder correspondence. (2) make_network_nack and '
+        '2^32, 2^64-1) and without reason, with unknown non-critical sub-elements before/after the NackReason; fragmentation '
+        'headers; about a third of each kind with all headers in increasing type-number order (unknown types anywhere in the '
+        'range, Ack repeated, FragIndex/FragCount followed by HopCount/PitToken/Nack/later fields); all of them also mutated '
+        '(truncation, substitution, length edits, element drop/dup/swap) for the decoder correspondence. (1b) exhaustively: '
+        'all 512 subsets of the 9 known optional headers in increasing type order, once around a Nack header (reasons and '
+        'widths cycling, every third with unknown sub-elements) and once without. (1c) Nack headers placed behind a header of '
+        'a later field (order violation): model-vs-library correspondence only. (2) make_network_nack and '
         '_put_raw_packet_with_pit_token for tokens of length 0..40. (3) reply histories: 1..5 Interests with distinct '
         'tokens / no token, replies through the closures in every order (permutations) incl. repeated replies. '
         '(3b) Interests whose envelope has unknown headers before and/or after the token, tokens up to 253 bytes, long replies. '
-        '(4) both front-ends: Nack envelopes with a token and with wider-than-minimal reason encodings; fragmented '
-        'envelopes around whole packets that would complete a pending Interest / reach a handler (must have no effect); '
+        '(4) both front-ends: Nack envelopes with a token, with wider-than-minimal reason encodings, with unknown sub-elements, '
+        'with any subset of known headers in increasing order around the Nack header; out-of-order Nack headers (model '
+        'correspondence only); fragmented envelopes (also increasing-order ones carrying PitToken/Nack/later fields) around '
+        'whole packets that would complete a pending Interest / reach a handler (must have no effect); '
         'each packet is delivered bare to one application and wrapped to an identical one (0..3 '
         'pending Interests, 0..2 handlers) and the observable outcomes are compared. non-trivial = the case has a header, a '
         'token or a pending Interest; distinct = distinct cases')
@@ -99,6 +124,81 @@ def gen_headers(rng, token='maybe', canonical=None):
 
 
 LOW_UNKNOWN = [0x51, 0x54, 0x20, 0x21, 0x5f]      # header types below PitToken that the format does not know
+# unknown header types anywhere in the type range (those below PitToken are exactly LOW_UNKNOWN); 0x321 = NackReason at the
+# top level, where it is not a field
+UNKNOWN_ANY = LOW_UNKNOWN + [0x63, 0x2ff, 0x321, 0x322, 0x33e, 0x346, 0x3e8, 0x3e9, 0x3ea, 0xfd00, 0x10001]
+AFTER_NACK = [0x32c, 0x330, 0x334, 0x340, 0x348, 0x344, 0x34c, 0x350]    # fields the format declares after Nack
+
+
+def known_value(rng, t):
+    """a legal value for the known optional header `t`"""
+    if t in (0x32c, 0x330, 0x340):
+        return uint_bytes(rng)
+    if t == 0x334:
+        return tlv(0x335, uint_bytes(rng))
+    if t == 0x34c:
+        return b''
+    if t == 0x62:
+        return rand_bytes(rng, rng.choice([0, 1, 2, 4, 8, 8, 16, 32, 33, 40]))
+    return rand_bytes(rng, rng.randint(0, 9))
+
+
+def nack_value(rng, reason, extra=None):
+    """value of a Nack header: an optional NackReason (shortest or wider legal encoding) among unknown non-critical
+    (even-typed) sub-elements, which a decoder ignores"""
+    if extra is None:
+        extra = rng.random() < 0.3
+    sub = lambda: tlv(rng.choice([0x322, 0x324, 0x20, 0x3e8]), rand_bytes(rng, rng.randint(0, 3)))     # noqa
+    pre = [sub() for _ in range(rng.choice([0, 1, 1, 2]))] if extra else []
+    post = [sub() for _ in range(rng.choice([0, 1, 1, 2]))] if extra else []
+    mid = tlv(0x321, c6_uint(reason, rng.choice([0, 0, 2, 4, 8]))) if reason is not None else b''
+    return b''.join(pre) + mid + b''.join(post)
+
+
+def gen_ascending(rng, nack=None, token='maybe', subset=None, frag=None):
+    """an envelope whose headers are in increasing type-number order, as NDNLPv2 prescribes: a subset of the known optional
+    headers (`subset`, else random; Ack possibly repeated), unknown headers of any type in between, optionally one Nack
+    header with value `nack`, optionally fragmentation headers `frag` ('index' / 'count' / 'both').
+    Returns (headers, token | None)."""
+    hs, tok = [], None
+    for t in KNOWN_ORDER:
+        if t == 0x62:
+            present = token == 'yes' or (token == 'maybe' and (rng.random() < 0.5 if subset is None else t in subset))
+        else:
+            present = rng.random() < 0.35 if subset is None else t in subset
+        if present:
+            v = known_value(rng, t)
+            hs.append([t, v])
+            if t == 0x62:
+                tok = v
+            if t == 0x344 and rng.random() < 0.2:
+                hs.append([t, known_value(rng, t)])           # Ack is repeatable
+    for _ in range(rng.choice([0, 0, 1, 2, 3])):
+        t = rng.choice(UNKNOWN_ANY)
+        hs.append([t, rand_bytes(rng, 8) if t == 0x51 else rand_bytes(rng, rng.randint(0, 5))])
+    if nack is not None:
+        hs.append([0x320, nack])
+    if frag in ('index', 'both'):
+        hs.append([0x52, c6_uint(rng.choice([0, 1, 300]))])
+    if frag in ('count', 'both'):
+        hs.append([0x53, c6_uint(rng.choice([1, 2, 70000]))])
+    hs.sort(key=lambda h: h[0])
+    return hs, tok
+
+
+def out_of_order_nack(rng, nv):
+    """headers in which a header of a field declared after Nack precedes the Nack header (violates the NDNLPv2 order):
+    the library's in-order scan does not recognise that Nack header"""
+    hs, tok = gen_ascending(rng, token='maybe')
+    hs = [h for h in hs if h[0] != 0x320]
+    later = [i for i, h in enumerate(hs) if h[0] in AFTER_NACK]
+    if not later:
+        t = rng.choice(AFTER_NACK)
+        hs.append([t, known_value(rng, t)])
+        hs.sort(key=lambda h: h[0])
+        later = [i for i, h in enumerate(hs) if h[0] in AFTER_NACK]
+    pos = rng.randint(later[0] + 1, len(hs))
+    return hs[:pos] + [[0x320, nv]] + hs[pos:], tok
 
 
 def preamble(rng, p=0.3):
@@ -166,10 +266,39 @@ def cases(rng, tier):
                  ([[0x53, c6_uint(rng.choice([1, 2, 70000]))]] if which != 'index' else [])
             hs = hs + fr + ([[0x62, rand_bytes(rng, 4)]] if rng.random() < 0.3 else [])
             spec = {'kind': 'frag'}
+        if rng.random() < 0.35:
+            # the same three kinds, the headers in increasing type-number order with any subset of the known headers
+            if spec['kind'] == 'plain':
+                hs, tok = gen_ascending(rng)
+                spec = {'kind': 'plain', 'tok': None if tok is None else tok.hex(), 'frag': frag.hex(), 'asc': True}
+            elif spec['kind'] == 'nack':
+                reason = rng.choice(REASONS + [None])
+                hs, tok = gen_ascending(rng, nack=nack_value(rng, reason))
+                spec = {'kind': 'nack', 'reason': reason, 'tok': None if tok is None else tok.hex(), 'frag': frag.hex(), 'asc': True}
+            else:
+                hs, tok = gen_ascending(rng, frag=rng.choice(['both', 'index', 'count']),
+                                        nack=nack_value(rng, rng.choice(REASONS)) if rng.random() < 0.3 else None)
+                spec = {'kind': 'frag', 'asc': True}
         w = wrap(hs, frag)
         yield {'k': 'lp', 'w': w.hex(), 'spec': spec}
         for tag, m in c6.mutations(w, rng, 1 if quick else 2):
             yield {'k': 'lp', 'w': m.hex(), 'spec': None}
+    # every subset of the known optional headers, in increasing type order, around a Nack header and without one
+    for mask in range(1 << len(KNOWN_ORDER)):
+        subset = [t for i, t in enumerate(KNOWN_ORDER) if mask >> i & 1]
+        frag = nets[mask % len(nets)]
+        reason = (REASONS + [None])[mask % (len(REASONS) + 1)]
+        hs, tok = gen_ascending(rng, nack=nack_value(rng, reason, extra=mask % 3 == 0), subset=subset)
+        yield {'k': 'lp', 'w': wrap(hs, frag).hex(),
+               'spec': {'kind': 'nack', 'reason': reason, 'tok': None if tok is None else tok.hex(), 'frag': frag.hex(), 'asc': True}}
+        hs, tok = gen_ascending(rng, subset=subset)
+        yield {'k': 'lp', 'w': wrap(hs, frag).hex(),
+               'spec': {'kind': 'plain', 'tok': None if tok is None else tok.hex(), 'frag': frag.hex(), 'asc': True}}
+    # a Nack header behind a header of a later field of the format: not judged (the envelope violates the NDNLPv2 order),
+    # model and library must agree that the scan does not recognise it
+    for _ in range(150 if quick else 3000):
+        hs, tok = out_of_order_nack(rng, nack_value(rng, rng.choice(REASONS + [None])))
+        yield {'k': 'lp', 'w': wrap(hs, rng.choice(nets)).hex(), 'spec': {'kind': 'ooo-nack'}}
     for w in [b'', b'\x64', b'\x64\x00', tlv(LP, tlv(0x50, b'')), tlv(LP, tlv(0x320, b'')), tlv(LP, tlv(0x320, tlv(0x321, b''))),
               tlv(LP, tlv(0x320, tlv(0x321, b'\x00\x00\x00'))), tlv(LP, tlv(0x320, tlv(0x323, b'\x01')) + tlv(0x50, b'\x05\x00')),
               tlv(LP, tlv(0x62, b'\x01') + tlv(0x62, b'\x02') + tlv(0x50, b'\x05\x00')), tlv(5, b''), tlv(LP, tlv(0x50, b'\x05\x00')) + b'\x00',
@@ -239,12 +368,22 @@ def cases(rng, tier):
                         nint = interest_for(rng.choice(from_pending))
                 hs_before = [h for h in hs if h[0] not in KNOWN_ORDER]
                 hs_after = [h for h in hs if h[0] in KNOWN_ORDER]
-                nack_value = tlv(0x321, c6_uint(reason, rng.choice([0, 0, 0, 2, 8])))
+                nv = tlv(0x321, c6_uint(reason, rng.choice([0, 0, 0, 2, 8])))
                 if rng.random() < 0.12:
                     # NDNLPv2: NackReason is optional; a Nack header without it is a Nack with reason None (0)
-                    reason, nack_value = 0, rng.choice([b'', b'', tlv(0x324, b'x')])
-                pkts.append({'p': nint.hex(), 'nack': reason,
-                             'hdrs': hs_json(head + hs_before + [[0x320, nack_value]] + hs_after)})
+                    reason, nv = 0, rng.choice([b'', b'', tlv(0x324, b'x')])
+                if rng.random() < 0.25:
+                    nv = nack_value(rng, None if nv in (b'', tlv(0x324, b'x')) else reason)
+                hdrs = head + hs_before + [[0x320, nv]] + hs_after
+                if rng.random() < 0.4:
+                    # headers in increasing type order: any subset of the known headers around the Nack header
+                    hdrs, _ = gen_ascending(rng, nack=nv)
+                if rng.random() < 0.12:
+                    # Nack header behind a later-field header: not judged by the oracle (order violation), compared with the model
+                    hdrs, _ = out_of_order_nack(rng, nv)
+                    pkts.append({'p': nint.hex(), 'nack': None, 'ooo': True, 'hdrs': hs_json(hdrs)})
+                    continue
+                pkts.append({'p': nint.hex(), 'nack': reason, 'hdrs': hs_json(hdrs)})
             elif rng.random() < 0.12:
                 # a fragmented envelope (FragIndex / FragCount after at most unknown headers) around a whole network
                 # packet that would have an effect when processed: it must be rejected by both front-ends
@@ -254,9 +393,12 @@ def cases(rng, tier):
                 fr = ([[0x52, c6_uint(rng.choice([0, 1, 300]))]] if which != 'count' else []) + \
                      ([[0x53, c6_uint(rng.choice([1, 2, 70000]))]] if which != 'index' else [])
                 hs = hs + fr + ([[0x62, rand_bytes(rng, 4)]] if rng.random() < 0.3 else [])
+                if rng.random() < 0.5:
+                    # increasing type order, any other headers (PitToken, Nack, known later fields) behind them
+                    hs, _ = gen_ascending(rng, frag=which, nack=nack_value(rng, rng.choice(REASONS)) if rng.random() < 0.4 else None)
                 pkts.append({'p': rng.choice(nets).hex(), 'hdrs': hs_json(hs), 'nack': None, 'frag': True})
             else:
-                hs, tok = gen_headers(rng)
+                hs, tok = gen_headers(rng) if rng.random() < 0.65 else gen_ascending(rng)
                 pkts.append({'p': p.hex(), 'hdrs': hs_json(hs), 'nack': None})
         yield {'k': 'recv', 'fe': fe, 'pend': pend, 'hand': hand, 'pkts': pkts}
 
@@ -322,6 +464,8 @@ def shrink(case):
         for i in range(len(case['hand'])):
             yield {**case, 'hand': case['hand'][:i] + case['hand'][i + 1:]}
         for i, p in enumerate(case['pkts']):
+            if p.get('ooo'):
+                continue             # its meaning depends on the order of its headers
             for j in range(len(p['hdrs'])):
                 if p['hdrs'][j][0] not in (0x320, 0x52, 0x53):
                     yield {**case, 'pkts': case['pkts'][:i] + [{**p, 'hdrs': p['hdrs'][:j] + p['hdrs'][j + 1:]}] + case['pkts'][i + 1:]}
@@ -566,6 +710,8 @@ def oracle(case, impl):
         if sp is None:
             return None
         o = impl['obs']
+        if sp['kind'] == 'ooo-nack':
+            return None
         if sp['kind'] == 'frag':
             return None if o.startswith('err ') else 'a fragmented envelope (FragIndex/FragCount) was accepted'
         if not o.startswith('ok '):
@@ -579,6 +725,8 @@ def oracle(case, impl):
             return 'an envelope without Nack header decoded as a Nack'
         if sp['kind'] == 'nack' and sp['reason'] is not None and nack != str(sp['reason']):
             return f"Nack reason {sp['reason']} decoded as {nack}"
+        if sp['kind'] == 'nack' and nack == '~':
+            return 'an envelope with a Nack header decoded as an envelope without one'
         return None
     if k == 'nack':
         o = impl['obs']
@@ -641,6 +789,8 @@ def oracle(case, impl):
             return None              # reception failing on the bare packet is C06's finding, not a transparency issue
         if w['exc'] or w['bg']:
             return f"{fe}: receiving envelope {n} failed with {w['exc'] or w['bg'][0]}"
+        if pk.get('ooo'):
+            continue
         if pk.get('frag'):
             if w['done'] or w['invoked'] or w['sent']:
                 return (f"{fe}: fragmented envelope {n} was not rejected: its Fragment was processed as a whole packet "
@@ -693,7 +843,7 @@ def tags(case, impl):
     k = case['k']
     t = ['kind:' + k]
     if k == 'lp':
-        t.append('lp:' + ('mutated' if case['spec'] is None else case['spec']['kind']))
+        t.append('lp:' + ('mutated' if case['spec'] is None else case['spec']['kind'] + (':ascending' if case['spec'].get('asc') else '')))
         t.append('lp-result:' + impl['obs'].split(' ')[0] + ('' if impl['obs'].startswith('ok') else ':' + impl['obs'][4:]))
     elif k == 'put':
         t.append('toklen:%d' % (len(case['tok']) // 2))
@@ -705,7 +855,17 @@ def tags(case, impl):
     elif k == 'recv':
         t.append(case['fe'] + ':pend%d:hand%d' % (len(case['pend']), len(case['hand'])))
         for pk, w in zip(case['pkts'], impl['wrapped']):
-            t.append('pkt:' + ('nack' if pk['nack'] is not None else 'fragmented' if pk.get('frag') else 'wrapped') + ':hdrs%d' % min(len(pk['hdrs']), 6))
+            t.append('pkt:' + ('nack' if pk['nack'] is not None else 'fragmented' if pk.get('frag') else
+                               'out-of-order-nack' if pk.get('ooo') else 'wrapped') + ':hdrs%d' % min(len(pk['hdrs']), 6))
+            types = [h[0] for h in pk['hdrs']]
+            if len(types) > 1 and types == sorted(types):
+                t.append('increasing-order:' + ('nack' if pk['nack'] is not None else 'fragmented' if pk.get('frag') else 'wrapped'))
+            if pk['nack'] is not None:
+                known = sum(1 for x in types if x in KNOWN_ORDER)
+                t.append('nack-known-headers:%d' % min(known, 4))
+                nvs = [bytes.fromhex(h[1]) for h in pk['hdrs'] if h[0] == 0x320]
+                if nvs and any(x[0] != 0x321 for x in (split_tlvs(nvs[0]) or [])):
+                    t.append('nack-unknown-sub-elements')
             pos, tk = split_token(pk['hdrs'])
             if tk is not None and pk['nack'] is not None:
                 t.append('nack-with-token')
@@ -732,15 +892,21 @@ def finding_key(case, impl, why):
 LEVEL_TEXT = ('Lean 4 theorems over a byte-level model of the envelope decoder/encoder (parse_lp_packet_v2, make_network_nack, '
               '_put_raw_packet_with_pit_token; field table generated from the live LpPacketValue class) composed with the '
               'receive pipeline model of C06: wrapped = bare for every network packet and every list of optional headers '
-              '(known or unknown, any order) in every table state; a Nack envelope completes exactly the Interests pending '
-              'on the exact enclosed name with exactly the reason, for all reasons < 2^64; fragmentation headers are '
-              'rejected; token round trip for every token length; each reply carries its own token over every history and '
-              'reply order; no token => bare. Tied to the code by differential execution of the compiled model against '
+              '(known or unknown, any order) in every table state; a Nack header anywhere the decoder\'s in-order scan '
+              'recognises it (exact condition proved; includes every envelope in increasing type-number order, with any other '
+              'headers incl. a PitToken, any NackReason width, unknown sub-elements, or no NackReason = reason 0) completes '
+              'exactly the Interests pending on the exact enclosed name with exactly the reason, for all reasons < 2^64, and '
+              'an unrecognised (out-of-order) Nack header is proved to be processed as a plain envelope; every '
+              'increasing-order envelope with FragIndex/FragCount is rejected; the PIT token of every increasing-order '
+              'envelope is the value of its first PitToken header; token round trip for every token length; each reply '
+              'carries its own token over every history and reply order; no token => bare. Tied to the code by differential '
+              'execution of the compiled model against '
               'parse_lp_packet_v2 / the encoders / both NDNApp front-ends, plus the property oracle on the implementation '
               '(bare-vs-wrapped twin applications, strict independent envelope decoder for face output).')
-LEVEL_NOTE = ('Proofs are about the model; model = code is sampled. Interest/Data decoding abstract. PitToken is proved to be '
-              'carried when it is the first header; Nack proved for the make_network_nack layout; out-of-order '
-              'fragmentation/PitToken headers are ignored by the library (observations reported).')
+LEVEL_NOTE = ('Proofs are about the model; model = code is sampled. Interest/Data decoding abstract. Known headers are assumed '
+              'to carry legal values, one Nack header per envelope; envelopes that violate the NDNLPv2 header order '
+              '(PitToken/FragIndex/FragCount/Nack behind a later field) are handled by the library as if the late header were '
+              'unknown - proved for Nack, observations reported.')
 TECHNIQUE = ('Lean 4 proof (refinement byte loop -> element fold by induction, induction over header lists and histories, '
              'table facts by decide) + generated table from live class + model/implementation correspondence check')
 DESIGN_REF = 'DESIGN.md section 7, C10'
